@@ -12,6 +12,7 @@ import drv_curvefit
 import drv_interp
 import drv_finders
 import drv_moon
+import drv_sun
 
 YMIN, YMAX = -4712, 6000
 
@@ -450,4 +451,51 @@ def plan_C15(tier, seed):
                      "gap ratio bounds in Finders.tla from the natural variation of the months (doubled)"])
 
 
-PLANS = {"C15": plan_C15, "C13": plan_C13, "C12": plan_C12, "C17": plan_C17, "C02": plan_C02, "C03": plan_C03, "C04": plan_C04, "C10": plan_C10, "C01": plan_C01, "C16": plan_C16, "C19": plan_C19}
+def _nt_c14(ev):
+    k = ev["k"]
+    if k == "season":
+        return (k, ev["y"], ev["kq"])
+    if k == "eot":
+        return (k, ev["tf"])
+    if k == "sun":
+        return (k, ev["y"], ev["m"], ev["d"], ev["lat"], ev["lonf"], ev["hf"])
+    return (k, ev["lat"], ev["lonw"], ev["a2"], ev["d2"], ev["rar"], ev["h0"])
+
+
+def plan_C14(tier, seed):
+    T = ("Trace_Sun", "Trace.cfg")
+    rng = random.Random(seed)
+    if tier == "quick":
+        # every 8th block of 25 years plus the ends and the table seam at year 1000 (each shard is a contiguous run of years)
+        blocks = [(-1003, -975), (-12, 12), (985, 1015), (1985, 2030), (2975, 3003)]
+        blocks += [(a, a + 24) for a in (rng.randrange(-950, 2950) for _ in range(7))]
+        eot = [(-1999, 500), (-500, 500), (1000, 500), (1800, 500), (2020, 800), (3998, 500), (rng.randrange(-1999, 3990), 500)]
+        nrs, nrts, per = 6, 6, 150
+    else:
+        blocks = _split(-1003, 3003, 32)
+        blocks = [(a - 1, b) for (a, b) in blocks]          # one year of overlap keeps the year-length clause continuous
+        eot = [(y, 3660) for y in range(-1999, 3990, 250)]
+        nrs, nrts, per = 16, 16, 1500
+    sh = [Shard("season_%+05d" % a, drv_sun.gen_seasons, dict(y0=a, y1=b), *T) for (a, b) in blocks]
+    sh += [Shard("eot_%+05d" % y, drv_sun.gen_eot, dict(y0=y, ndays=n), *T) for (y, n) in eot]
+    sh += [Shard("riseset_%02d" % i, drv_sun.gen_riseset, dict(seed=seed, shard=i, n=per), *T) for i in range(nrs)]
+    sh += [Shard("rts_%02d" % i, drv_sun.gen_rts, dict(seed=seed, shard=i, n=per * 3), *T) for i in range(nrts)]
+    return dict(
+        mc=[], shards=sh, level="model_checking", exhaustive=(tier == "thorough"), nontrivial=_nt_c14,
+        rule="Seasons: every (year, season) of contiguous runs of years (thorough: every year -1003..3003; quick: both ends, the table "
+             "seam at year 1000 and seeded 25-year blocks) in order; TLC checks the apparent longitude at the returned instant "
+             "(1e-5 deg mod 360), 88-95 days between consecutive seasons and 365.2-365.3 days to the same season of the previous "
+             "year as action properties, ValueError outside -1000..3000. Equation of time: consecutive days over multi-year runs "
+             "across -2000..4000: bound 25 min (17.5 in 1800-2200) and daily change < 45 s. Epoch.rise_set: seeded dates 1900-2100, "
+             "latitude +-66.5, longitude +-180, height 0-5000 m: altitude of the Sun's centre from the library's own apparent "
+             "position, sidereal time and equatorial2horizontal within 1 deg of -0.83 - dip (sqrt witness verified), hour angles "
+             "negative at rise and positive at set. times_rise_transit_set: bodies moving up to 1.5 deg/day incl. RA across 0h: "
+             "altitude at the returned times = h0 (0.005 deg, as a sine identity on verified witnesses), transit on the meridian, "
+             "None exactly when |cos H0| > 1. Distinct case = (year, season) / day / (date, place) / scenario.",
+        assumptions=["a refusal of Epoch.rise_set is accepted only on days on which the Sun's altitude (library positions, 30-minute "
+                     "scan) does not cross the standard altitude by more than 1 degree",
+                     "grazing = (cos phi cos delta sin H0)^2 < 0.01",
+                     "equation-of-time daily-change clause skipped when the minutes field is 0 (the tuple cannot carry the sign there)"])
+
+
+PLANS = {"C14": plan_C14, "C15": plan_C15, "C13": plan_C13, "C12": plan_C12, "C17": plan_C17, "C02": plan_C02, "C03": plan_C03, "C04": plan_C04, "C10": plan_C10, "C01": plan_C01, "C16": plan_C16, "C19": plan_C19}
